@@ -128,8 +128,11 @@ func (p *Proxy) serveClients(ctx context.Context) {
 func (p *Proxy) forwardRpc(source string, rpc *goatorepo.Rpc) {
 	// Sanity check RPC first
 	if rpc.Header == nil || rpc.Header.Source != source {
-		log.Warn().Msgf("Bad Rpc: %v", rpc)
-		log.Panic().Msg("TODO: handle invalid RPC here (log and ignore?)")
+		// A peer may send anything: an envelope without a header, or one claiming
+		// a source other than the name its connection is attached under, is
+		// dropped, never forwarded.
+		log.Warn().Msgf("Bad Rpc from %s: ignoring: %v", source, rpc)
+		return
 	}
 
 	// Apply any sort of address translation first: this allows implementing a
